@@ -4,7 +4,8 @@
 //!
 //! `miridrive --tier quick|thorough --seed <u64> --out <stats.json>
 //!            [--crate-dir <dir>] [--jobs <n>] [--seeds <n>] [--program <i>] [--verbose]`
-//! quick: the programs marked `quick` (make_unique / as_mut_slice / into_vec races) x 4 seeds;
+//! quick: the programs marked `quick` (make_unique / as_mut_slice / into_vec races, and two
+//! by-reference programs: scoped threads cloning through one shared `&HipByt`) x 4 seeds;
 //! thorough: all programs x 32 seeds. Miri seeds are `seed*1000 .. seed*1000 + n`.
 //! Every run is `cargo +nightly miri run --offline --bin miriprog -- <i>` in the crate
 //! directory with `MIRIFLAGS="-Zmiri-permissive-provenance -Zmiri-seed=<n>"` (plus
